@@ -459,15 +459,25 @@ class MultiFit(FitBase):
 
         _error_dict = dict(err=error_object, enabled=True, axis=axis, reference_name=reference)
         self._shared_error_dicts[name] = _error_dict
-        for _fit_index in error_object.fit_indices:
-            _fit = self._fits[_fit_index]
-            if reference == "data":
-                _target = _fit.data_container
-            elif reference == "model":
-                _target = _fit._param_model
-            else:
-                raise ValueError()
-            _target._add_error_object(name=name, error_object=error_object, axis=axis)
+        _targets_done = []
+        try:
+            for _fit_index in error_object.fit_indices:
+                _fit = self._fits[_fit_index]
+                if reference == "data":
+                    _target = _fit.data_container
+                elif reference == "model":
+                    _target = _fit._param_model
+                else:
+                    raise ValueError()
+                _target._add_error_object(name=name, error_object=error_object, axis=axis)
+                _targets_done.append(_target)
+        except Exception:
+            # rejected (e.g. wrong size for one of the fits): leave no trace of the error source
+            for _target in _targets_done:
+                _target._error_dicts.pop(name, None)
+                _target._on_error_change()
+            del self._shared_error_dicts[name]
+            raise
         self._on_error_change()
         return name
 
